@@ -32,6 +32,9 @@ func main() {
 		os.Exit(2)
 	}
 	id := flag.Arg(0)
+	if id == "eval" {
+		os.Exit(evalCmd(flag.Args()[1:]))
+	}
 	fn, ok := checks[id]
 	if !ok {
 		fmt.Fprintf(os.Stderr, "vcheck: unknown check %q\n", id)
